@@ -83,3 +83,16 @@ Proof.
     destruct (ver_ltb (rq_version req) s) eqn:L; [|reflexivity].
     pose proof (op_gated_spec _ _ _ Hv Hs L) as N; unfold gate_runs in N; rewrite Hg in N; discriminate.
 Qed.
+
+(* Locate filters: a handler that consults is_attribute_supported refuses a later attribute; _process_locate does not
+   consult it today, and lets "Sensitive" (KMIP 1.4) through under KMIP 1.0 *)
+Lemma locate_filter_gated_if_checked : forall v names n, site_checks_supported "_process_locate" = true ->
+  In n names -> ver_ltb v (spec_attr_min n) = true -> locate_filter_gate v names <> None.
+Proof.
+  intros v names n Hs Hin Hlt; unfold locate_filter_gate; rewrite Hs.
+  destruct (template_gate_refuses v names n Hin (attr_gated_spec v n Hlt)) as [m [Hm _]]; rewrite Hm; discriminate.
+Qed.
+
+Lemma locate_filter_not_gated : exists v n, In v supported_versions /\ ver_ltb v (spec_attr_min n) = true
+  /\ locate_filter_gate v [n] = None.
+Proof. exists (1, 0), "Sensitive"%string; repeat split; vm_compute; tauto. Qed.
